@@ -65,6 +65,7 @@ type side struct {
 	b      *backend
 	broken string // api.NewRouter panicked
 	routes map[string]bool
+	chiSaid int // set by the instrumented NotFound / MethodNotAllowed responders
 }
 
 func build(ro bool) (s *side) {
@@ -76,6 +77,15 @@ func build(ro bool) (s *side) {
 		}
 	}()
 	s.router = api.NewRouter(s.b, &health.HealthController{}, metrics.NewNoOpRegistry(), auth.NewNoAuth(), ro)
+	// same answers as chi's defaults, plus a mark telling them from a 404 written by a middleware or a controller
+	s.router.NotFound(func(w http.ResponseWriter, r *http.Request) {
+		s.chiSaid = 404
+		http.NotFound(w, r)
+	})
+	s.router.MethodNotAllowed(func(w http.ResponseWriter, r *http.Request) {
+		s.chiSaid = 405
+		w.WriteHeader(405)
+	})
 	_ = chi.Walk(s.router, func(method, route string, _ http.Handler, _ ...func(http.Handler) http.Handler) error {
 		s.routes[method+" "+canon(route)] = true
 		return nil
@@ -102,6 +112,7 @@ func canon(p string) string {
 type observation struct {
 	Status   int
 	Rejected bool
+	ChiSaid  int
 	Matched  string // "" = none
 	Writes   []string
 	Created  int
@@ -133,7 +144,7 @@ func (s *side) do(rq reqIn) (ob observation, ok bool) {
 	// our own chi routing context, so the patterns chi matched can be read back afterwards
 	rctx := chi.NewRouteContext()
 	req = req.WithContext(context.WithValue(req.Context(), chi.RouteCtxKey, rctx))
-	s.l.Writes, s.l.Reads, s.b.Created = nil, nil, nil
+	s.l.Writes, s.l.Reads, s.b.Created, s.chiSaid = nil, nil, nil, 0
 	rec := httptest.NewRecorder()
 	func() {
 		defer func() {
@@ -143,7 +154,7 @@ func (s *side) do(rq reqIn) (ob observation, ok bool) {
 		}()
 		s.router.ServeHTTP(rec, req)
 	}()
-	ob.Status = rec.Code
+	ob.Status, ob.ChiSaid = rec.Code, s.chiSaid
 	if ob.Panic != "" {
 		ob.Status = 500
 	}
@@ -176,9 +187,9 @@ func coqCase(in input, ob observation) string {
 	for _, w := range ob.Writes {
 		ws = append(ws, kindCoq[w])
 	}
-	return fmt.Sprintf("(%s, %s, {| meth := %s; path := %s |}, {| ob_status := %d; ob_rejected := %s; ob_matched := %s; ob_writes := %s |})",
+	return fmt.Sprintf("(%s, %s, {| meth := %s; path := %s |}, {| ob_status := %d; ob_rejected := %s; ob_nohandler := %s; ob_matched := %s; ob_writes := %s |})",
 		vx.CoqBool(in.ReadOnly), vx.CoqBool(in.Req.WF), vx.CoqString(in.Req.Method), vx.CoqList(segs),
-		ob.Status, vx.CoqBool(ob.Rejected), vx.CoqOpt(vx.CoqString(ob.Matched), ob.Matched != ""), vx.CoqList(ws))
+		ob.Status, vx.CoqBool(ob.Rejected), vx.CoqBool(ob.ChiSaid != 0), vx.CoqOpt(vx.CoqString(ob.Matched), ob.Matched != ""), vx.CoqList(ws))
 }
 
 type runner struct {
@@ -426,6 +437,7 @@ func main() {
 		"bulk / garbage / script bodies, CORS preflight), then seeded random paths/methods/bodies/headers; each request is served by the " +
 		"router built with readOnly=false and by the one built with readOnly=true; non-trivial = without the flag the backend records a " +
 		"write for this request; distinct by the JSON of (flag, request)"
+	r.Sum.Samples = []any{} // never null in summary.json, also when the router cannot even be built
 	x := &runner{r: r}
 	x.rw, x.ro = build(false), build(true)
 	for _, s := range []*side{x.rw, x.ro} {
@@ -500,7 +512,7 @@ func main() {
 		}
 	}
 
-	vocabSet := map[string]bool{"": true, "v2": true, "api": true, "ledger": true, "..": true, ".": true, "%2F": true, "l0": true, "7": true, "x y": false}
+	vocabSet := map[string]bool{"": true, "v2": true, "api": true, "ledger": true, "..": true, ".": true, "%2F": true, "l0": true, "7": true}
 	for _, f := range fulls {
 		for _, s := range strings.Split(f, "/") {
 			if !strings.HasPrefix(s, "{") {
@@ -520,7 +532,8 @@ func main() {
 		}
 	}
 	sort.Strings(vocab)
-	g := vx.NewRng(r.Seed)
+	// vx.NewRng(s) and vx.NewRng(s+1) are the same stream shifted by one draw: go through one mixed output first
+	g := vx.NewRng(r.Seed).Fork()
 	N := 1500
 	if r.Thorough() {
 		N = 50000
